@@ -217,6 +217,10 @@ func playScenario(sc *Scenario, w *bufio.Writer) {
 			if !m.RunAndEmit(w, &rs, 10*time.Second) {
 				return
 			}
+		case "cpm":
+			var sp0 int
+			json.Unmarshal(op[2], &sp0)
+			m.EmitCPM(w, string(op[1]), sp0)
 		case "w":
 			m.WholeAndEmit(w)
 		case "snap":
